@@ -133,6 +133,11 @@ func resOf(t tensor.Tensor, err error) outcome {
 	if t != nil {
 		o.hasRes = true
 		if err == nil {
+			// the accessors of a fresh result, Gradient() before anything else has touched its context
+			if g := t.Gradient(); g != nil {
+				o.note = "a fresh result already has a gradient"
+			}
+			t.NElems()
 			// reading every element catches results that are accepted but malformed
 			d, _, rerr := bind.Read(t)
 			if rerr != nil {
